@@ -552,6 +552,12 @@ static size_t calculateVoidPointerAlignedSize(size_t size)
 #endif
 }
 
+static bool sizeOverflowsWithAccountingInformation(size_t size)
+{
+    const size_t overhead = (size_t) MemoryLeakDetector::memory_corruption_buffer_size + sizeof(void*) + sizeof(MemoryLeakDetectorNode);
+    return size > ((size_t) -1) - overhead;
+}
+
 size_t MemoryLeakDetector::sizeOfMemoryWithCorruptionInfo(size_t size)
 {
     return calculateVoidPointerAlignedSize(size + memory_corruption_buffer_size);
@@ -654,6 +660,8 @@ char* MemoryLeakDetector::allocMemory(TestMemoryAllocator* allocator, size_t siz
      * So, for malloc, we'll allocate the memory separately so we can detect this and give a proper error.
      */
 
+    if (sizeOverflowsWithAccountingInformation(size)) return NULLPTR;
+
     char* memory = allocateMemoryWithAccountingInformation(allocator, size, file, line, allocatNodesSeperately);
     if (memory == NULLPTR) return NULLPTR;
     MemoryLeakDetectorNode* node = createMemoryLeakAccountingInformation(allocator, size, memory, allocatNodesSeperately);
@@ -709,6 +717,8 @@ char* MemoryLeakDetector::reallocMemory(TestMemoryAllocator* allocator, char* me
 #ifdef CPPUTEST_DISABLE_MEM_CORRUPTION_CHECK
    allocatNodesSeperately = true;
 #endif
+    if (sizeOverflowsWithAccountingInformation(size)) return NULLPTR;
+
     if (memory) {
         MemoryLeakDetectorNode* node = memoryTable_.removeNode(memory);
         if (node == NULLPTR) {
